@@ -530,6 +530,13 @@ pub fn check_request(ctx: &mut Ctx, rng: &mut Rng, corpus: &Corpus, nodes: &[Nod
         let line = format!("C14 spec {} {}", nodes_to_lean(nodes, false, &ranks), parts_to_lean(&corpus.docs, &[matching_ids.clone()], &ranks));
         let m = ctx.model.ask(&line);
         let mine = srs_to_lean(&srs, &ranks);
+        // and the per-value specification (what the mechanism computes for every input)
+        let mpv = ctx.model.ask(&format!("C14 specpv {} {}", nodes_to_lean(nodes, false, &ranks), parts_to_lean(&corpus.docs, &[matching_ids.clone()], &ranks)));
+        let minepv = srs_to_lean(&srs_pv, &ranks);
+        ctx.report.count("model:evalAggPV-compared");
+        if mpv != minepv {
+            ctx.report.violation("model", "C14:lean-evalAggPV-differs-from-harness-evaluator", format!("lean {} vs harness {}", &mpv[..mpv.len().min(300)], &minepv[..minepv.len().min(300)]), case_json(&c, &[matching_ids.clone()], "spec"));
+        }
         if m != mine {
             ctx.report.violation("model", "C14:lean-evalAgg-differs-from-harness-evaluator", format!("lean {} vs harness {}", &m[..m.len().min(300)], &mine[..mine.len().min(300)]), case_json(&c, &[matching_ids.clone()], "spec"));
         }
@@ -1027,6 +1034,7 @@ pub fn run(ctx: &mut Ctx) {
     ctx.report.correspondence_obligations = vec![
         "searcher.search(AggregationCollector) result = direct evaluation over the matching documents (counts, keys, min, max exact; sums 1e-9; sketches within documented error)".into(),
         "Lean evalAgg text = harness direct evaluator text (exact)".into(),
+        "Lean evalAggPV text = harness per-value evaluator text (exact; the per-value evaluator is what the real result is attributed with for multi-valued documents)".into(),
         "Lean merge model (collectSeg / mergeFruits / finalize) = real keys, counts, sum_other_doc_count, doc_count_error_upper_bound".into(),
         "final result identical for every segmentation, for separate indexes merged in random schedules and through postcard".into(),
         "bucket / memory limits: Err or the complete result; Lean guard model agrees".into(),
